@@ -76,6 +76,8 @@ pub struct Tr<'a> {
     pub fuel: bool,
     /// set when a loop / a call of a fuelled function is met while `fuel` is false (the caller retries with fuel)
     pub needs_fuel: bool,
+    /// the non-fuel pass met `opt.unwrap()`: retried with fuel, where it is an exit with None
+    pub unwrap_retry: bool,
     /// the fuel variable in scope
     pub fuel_var: String,
     /// names of fuelled functions (for the syntactic effect analysis)
@@ -221,10 +223,7 @@ pub fn conv_ty(t: &Type, adts: &dyn Fn(&str) -> Option<Ty>, generics: &BTreeSet<
                 // a length that is not a literal (a const generic, `SIZE * SIZE`): the array is a list, like a slice
                 _ => return Ok(Ty::Slice(Box::new(e))),
             };
-            if n < 2 {
-                return Err(unsupported(t, "array type of length < 2"));
-            }
-            if n > 8 {
+            if n < 2 || n > 8 {
                 return Ok(Ty::Slice(Box::new(e)));
             }
             Ok(Ty::Tuple(vec![e; n]))
@@ -244,6 +243,17 @@ pub fn conv_ty(t: &Type, adts: &dyn Fn(&str) -> Option<Ty>, generics: &BTreeSet<
             };
             if let Some(i) = IntTy::from_name(&name) {
                 return Ok(Ty::Int(Some(i)));
+            }
+            if name == "Windows" && p.path.segments.len() >= 2 && p.path.segments[p.path.segments.len() - 2].ident == "slice" {
+                // core::slice::Windows<'a, T>
+                if let PathArguments::AngleBracketed(a) = &seg.arguments {
+                    for g in a.args.iter() {
+                        if let GenericArgument::Type(x) = g {
+                            return Ok(Ty::Windows(Box::new(conv_ty(x, adts, generics, self_ty)?)));
+                        }
+                    }
+                }
+                return Err(unsupported(t, "`slice::Windows` without its element type"));
             }
             if name == "char" && p.path.segments.len() == 1 {
                 // a `char` is its code point
@@ -333,6 +343,7 @@ struct EffVisitor<'m> {
     mutarg_names: &'m BTreeSet<String>,
     /// identifier of the current `Self` type
     self_name: Option<String>,
+    unwrap_is_exit: bool,
 }
 
 impl<'m> EffVisitor<'m> {
@@ -415,6 +426,10 @@ impl<'ast, 'm> Visit<'ast> for EffVisitor<'m> {
             if let Some(r) = place_root(&i.receiver) {
                 self.eff.assigned.insert(r);
             }
+        }
+        if n == "unwrap" && i.args.is_empty() && self.unwrap_is_exit && !matches!(&*i.receiver, Expr::MethodCall(r) if r.method == "try_into") {
+            // in a fuelled function `opt.unwrap()` leaves the function with None (no value) when opt is None
+            self.eff.ret = true;
         }
         if n == "inspect" {
             // `opt.inspect(|_| { statements })` runs the statements
@@ -518,12 +533,12 @@ impl<'a> Tr<'a> {
     }
 
     pub fn effects_expr(&self, e: &Expr) -> Eff {
-        let mut v = EffVisitor { eff: Eff::default(), mut_methods: &self.mut_methods, fuel_names: &self.fuel_names, mutarg_names: &self.mutarg_names, self_name: self.self_ty.as_deref().map(|s| s.rsplit('.').next().unwrap().split('<').next().unwrap().to_string()) };
+        let mut v = EffVisitor { eff: Eff::default(), mut_methods: &self.mut_methods, fuel_names: &self.fuel_names, mutarg_names: &self.mutarg_names, self_name: self.self_ty.as_deref().map(|s| s.rsplit('.').next().unwrap().split('<').next().unwrap().to_string()), unwrap_is_exit: self.fuel };
         v.visit_expr(e);
         v.eff
     }
     pub fn effects_stmts(&self, s: &[Stmt]) -> Eff {
-        let mut v = EffVisitor { eff: Eff::default(), mut_methods: &self.mut_methods, fuel_names: &self.fuel_names, mutarg_names: &self.mutarg_names, self_name: self.self_ty.as_deref().map(|s| s.rsplit('.').next().unwrap().split('<').next().unwrap().to_string()) };
+        let mut v = EffVisitor { eff: Eff::default(), mut_methods: &self.mut_methods, fuel_names: &self.fuel_names, mutarg_names: &self.mutarg_names, self_name: self.self_ty.as_deref().map(|s| s.rsplit('.').next().unwrap().split('<').next().unwrap().to_string()), unwrap_is_exit: self.fuel };
         for x in s {
             v.visit_stmt(x);
         }
@@ -582,6 +597,21 @@ impl<'a> Tr<'a> {
                     parts.push(self.bind_pat(q, qt, env)?);
                 }
                 Ok(format!("({})", parts.join(", ")))
+            }
+            Pat::Slice(t) if matches!(ty, Ty::Slice(_)) => {
+                // `[a, b]` against a slice: the list of exactly these elements
+                let et = match ty {
+                    Ty::Slice(x) => (**x).clone(),
+                    _ => unreachable!(),
+                };
+                let mut parts = vec![];
+                for q in t.elems.iter() {
+                    if matches!(q, Pat::Rest(_)) {
+                        return Err(unsupported(p, "`..` in a slice pattern"));
+                    }
+                    parts.push(self.bind_pat(q, &et, env)?);
+                }
+                Ok(format!("[{}]", parts.join("; ")))
             }
             Pat::Slice(t) => {
                 let tys = match ty {
